@@ -304,6 +304,28 @@ def run(ck: Check):
                             dict(case, deviation=dev, row=r, logits=w_race[r].tolist(), exponential_draws=e_race[r].tolist(),
                                  expected=ref[r].tolist(), got=ysoft[r].tolist()),
                             signature={"layer": "primitive", "param": "raw", "mode": "gumbel_soft", "what": "race"})
+    # a 16-bit DEFAULT dtype (torch.set_default_dtype) must not bring the noise back to 16 bits: a 16-bit uniform draw is exactly 0 about
+    # once in 512 (bfloat16) / 4000 (float16) draws, the noise is then -inf and the sample 0 whatever the logit.  P(0 | logit 12) = 6.1e-6
+    n_def = 400000 if ck.tier == "quick" else 2000000
+    for dt_def in (torch.bfloat16, torch.float16):
+        old_default = torch.get_default_dtype()
+        try:
+            torch.set_default_dtype(dt_def)
+            torch.manual_seed(ck.seed + 515)
+            with torch.no_grad():
+                yd = Fn.gumbel_sigmoid(torch.full((n_def,), 12.0), tau=1.0, hard=True)
+            zeros_d = int((yd.float() == 0).sum())
+        except Exception:
+            zeros_d = None                                  # refusing the configuration is not a wrong sample
+        finally:
+            torch.set_default_dtype(old_default)
+        case_d = {"kind": "default-dtype", "default": str(dt_def), "logit": 12.0, "draws": n_def}
+        ck.case(case_d, nontrivial=True, kind="default-dtype")
+        expect_d = n_def * 6.1e-6
+        if zeros_d is not None and zeros_d > expect_d + 10 * (expect_d ** 0.5) + 10:
+            ck.disagree("under a 16-bit default dtype the hard Gumbel-sigmoid sample of logit 12 is 0 far more often than 1 - logistic(12) (noise drawn in 16 bits)",
+                        dict(case_d, zeros=zeros_d, expected_about=round(expect_d, 1)),
+                        signature={"layer": "primitive", "what": "default-dtype", "default": str(dt_def)})
     # thresholds at and beyond the ends of (0,1): the soft sample lies strictly inside (0,1), so the hard sample is always 1 for a threshold
     # <= 0 and always 0 for a threshold >= 1, at every temperature (the rounded sigmoid is exactly 0 / 1 far out in the tails)
     import torchlogix.functional as Fn2
